@@ -63,6 +63,7 @@ func H_C10_Crash() {
 		if alive {
 			// no crash point was chosen on this path: nothing to check here (the clean path is C08's)
 			vReach("c10.no-crash")
+			vObserveInt("crashedAt", -1)
 			return
 		}
 		if power {
@@ -74,7 +75,13 @@ func H_C10_Crash() {
 		vObserveInt("crashedAt", crashedAt)
 	} else {
 		crashedAt = vPredictedInt("crashedAt")
+		if crashedAt < 0 {
+			vObserveInt("crashedAt", -1)
+			return
+		}
 		vImageLoad(dirB)
+		vImageObserve(dirB)
+		vObserveInt("crashedAt", crashedAt)
 	}
 	vReach("c10.crashed")
 	db2, err := Open(optB)
